@@ -885,6 +885,9 @@ func (c *FnCtx) rangeOp(fr *Frame, st *State, x *ssa.Range) {
 		it.len0 = c.mapLen(st, x.X.Type(), m)
 		it.count = c.newCell("rangecount", types.Typ[types.Int])
 		c.setCell(st, it.count, c.eng.ts.Int(0))
+		it.visited = c.newCell("rangevisited", nil)
+		it.visited.ghostSort = ArrOf(mh.ks, SBool)
+		c.setCell(st, it.visited, c.eng.ts.ConstArr(ArrOf(mh.ks, SBool), c.eng.ts.Bool(false)))
 		fr.regs[x] = it
 		if refs := x.Referrers(); refs != nil {
 			for _, r := range *refs {
@@ -931,6 +934,13 @@ func (c *FnCtx) nextOp(fr *Frame, st *State, x *ssa.Next) {
 			c.addFact(st, ts.Le(cnt, it.len0))
 		}
 		c.setCell(st, it.count, ts.Ite(ok, ts.Add(cnt, ts.Int(1)), cnt))
+		// ghost set of delivered keys: a delivered key was not delivered before; on exhaustion every key was delivered
+		vis := c.getCell(st, it.visited)
+		c.addFact(st, ts.Implies(ok, ts.Not(ts.Select(vis, k))))
+		if c.hget(st, mh.dom, mh.sdom, it.m) == it.dom0 {
+			c.addFact(st, ts.Implies(ts.Not(ok), ts.Eq(vis, it.dom0)))
+		}
+		c.setCell(st, it.visited, ts.Ite(ok, ts.Store(vis, k, ts.Bool(true)), vis))
 		if ord, isHead := fr.loops.heads[x.Block()]; isHead {
 			if fr.iterByLoop == nil {
 				fr.iterByLoop = map[int]*IterVal{}
